@@ -79,7 +79,7 @@ P("C03", "other",
   "(pass-through for scalar operands with the auto-reduce options off). //, %, ** and the in-place twins are bounded only.",
   MIXED + ": proved = + - * / on multiplicative quantities (error iff dimensions differ; physical value; dimensions); bounded = "
   "the other operators, offset units, numeric types.",
-  standins=["standins.c03_arith", "standins.c03_context"])
+  standins=["standins.c03_arith", "standins.c03_context", "standins.c13_inplace_memo"])
 P("C04", "proof",
   "Every UnitsContainer operation on the C04 chain is verified against a full-view contract (exponent arithmetic for all keys, "
   "no zero entry, hash reset/coherence, fresh result, operands unmodified) by a VC generator over the real AST of pint/util.py; "
@@ -165,7 +165,7 @@ P("C13", "other",
   "same declarative state.",
   "Parse cache and base-unit cache contents are covered by the stand-in only.",
   MIXED + ": proved = memo coherence of the three registry memos; bounded = history independence over sequences of <= 2 (quick) / 4 (thorough) operations.",
-  standins=["standins.c13_history"])
+  standins=["standins.c13_history", "standins.c13_inplace_memo"])
 P("C14", "other",
   "Deductive: the default_system setter (unknown names rejected, memo reset also for None). Bounded: base units for every "
   "multiplicative unit x 7 systems against an independent reading of the @system blocks and exact factors; group closure over "
